@@ -108,6 +108,32 @@ def r12_2(run, model):
     run.ob("R12.2", "file()|FILE node closed", "MySyntaxKind::FILE" in closes and "p.close(" in closes, site(FILE, f.node["sp"]), "file() opens and closes a FILE node")
 
 
+def r12_7(run, model):
+    run.rule("R12.7", "token ranges tile the text: every Token the lexer builds takes its text from `slice()` and its range from "
+                      "`range_from_span(span())` of the same match (all construction sites agree, error tokens included), and range_from_span "
+                      "uses both ends of the span")
+    LEX = "crates/lexer/src/lib.rs"
+    n = 0
+    for f in model.fns(LEX):
+        if f.body is None:
+            continue
+        for st in S.find(f.body, "Struct"):
+            names = {fl["name"] for fl in st["fields"]}
+            if not {"kind", "text", "range"} <= names:
+                continue
+            n += 1
+            fl = {x["name"]: x for x in st["fields"]}
+            rt = S.norm_ws(run.facts.text(LEX, fl["range"]["expr"]["sp"])) if fl["range"].get("expr") else "range"
+            ok = re.fullmatch(r"range_from_span\((self\.inner|lexer|self\.lexer|self)\.span\(\)\)|range", rt) is not None
+            run.ob("R12.7", f"{f.qual}|token #{n} range is the match's span", ok, site(LEX, st["sp"]), f"range: {rt[:60]}",
+                   witness="an Error token for `日` (3 bytes) gets a 1-byte range: ranges no longer tile the text and a diagnostic ends inside a character")
+    run.floor("token construction sites in the lexer", n, 2)
+    g = model.fn("range_from_span", LEX)
+    t = S.norm_ws(run.facts.text(LEX, g.body["sp"]))
+    both = ("span.start" in t and "span.end" in t) or re.search(r"Range\{start,end\}=span", t) is not None
+    run.ob("R12.7", "range_from_span|uses both ends", both and re.search(r"TextRange::new\(start,end\)|TextRange::new\(.*start.*,.*end.*\)", t) is not None, site(LEX, g.node["sp"]), t[:120])
+
+
 def r12_4(run, model):
     run.rule("R12.4", "the text handed to the lexer/parser entry points reaches logos unchanged: the lexer constructor and lex() are called "
                       "with the bare input parameter, and no strip/trim/replace is applied to it on the way")
@@ -173,6 +199,9 @@ def run(run, model):
     from rules import c04
     run.rule("R12.6", "parsing terminates: every grammar loop makes progress (shared with C04 R04.1, abstract interpretation of the parser)")
     run.try_rule(c04.r04_1, model)
+    run.rule("R12.8", "the hand-written scanners of lexer and parser never index past the end (shared with C04 R04.7)")
+    run.try_rule(c04.r04_7, model, ("crates/lexer/src/lib.rs", "crates/parser/src/input.rs", "crates/parser/src/parser.rs"))
+    run.try_rule(r12_7, model)
     # R12.3: no entropy in lexer / parser
     run.rule("R12.3", "lexing and parsing are deterministic: no hash-ordered iteration and no entropy source in the lexer/parser/cst/ast crates")
     bad = [c for c in mir.calls if c["file"].startswith(("crates/lexer/src", "crates/parser/src")) and re.search(r"std::collections::Hash(Map|Set)|RandomState|SystemTime|Instant::now|std::env::", c["callee"])]
